@@ -479,7 +479,11 @@ pub fn do_op(sh: &Shared, tid: usize, kind: Kind, rng: &mut Rng) {
           continue;
         }
         let wid = sh.wid();
-        let cost = sh.scn.pick_cost(k, rng);
+        let mut cost = sh.scn.pick_cost(k, rng);
+        // a burst may end in heavy items (in the runs that allow costs above the capacity)
+        if n > 16 && items.len() >= 14 && sh.scn.oversize && rng.chance(1, 2) {
+          cost = sh.scn.cache.capacity.unwrap_or(50) + 1 + rng.below(5);
+        }
         ev.keys.push(k);
         ev.writes.push(Wr { key: k, wid, cost, ttl_ns: gttl });
         items.push((k, Val { key: k, wid, n: 0 }, cost));
